@@ -63,6 +63,12 @@ def app2 (f : K → K → List K) (l : List K) : List K := f (l.getD 0 0) (l.get
 /-- feed the 36 entries of a 6×6 list to a traced unit taking a 3D fourth order tensor -/
 def app36 (f : K → K → K → K → K → K → K → K → K → K → K → K → K → K → K → K → K → K → K → K → K → K → K → K → K → K → K → K → K → K → K → K → K → K → K → K → List K) (l : List K) : List K :=
   f (l.getD 0 0) (l.getD 1 0) (l.getD 2 0) (l.getD 3 0) (l.getD 4 0) (l.getD 5 0) (l.getD 6 0) (l.getD 7 0) (l.getD 8 0) (l.getD 9 0) (l.getD 10 0) (l.getD 11 0) (l.getD 12 0) (l.getD 13 0) (l.getD 14 0) (l.getD 15 0) (l.getD 16 0) (l.getD 17 0) (l.getD 18 0) (l.getD 19 0) (l.getD 20 0) (l.getD 21 0) (l.getD 22 0) (l.getD 23 0) (l.getD 24 0) (l.getD 25 0) (l.getD 26 0) (l.getD 27 0) (l.getD 28 0) (l.getD 29 0) (l.getD 30 0) (l.getD 31 0) (l.getD 32 0) (l.getD 33 0) (l.getD 34 0) (l.getD 35 0)
+/-- feed the 16 entries of a 4×4 list (and the garbage) to a traced unit taking a 2D fourth order tensor -/
+def app16g (f : K → K → K → K → K → K → K → K → K → K → K → K → K → K → K → K → K → List K) (l : List K) (g : K) : List K :=
+  f (l.getD 0 0) (l.getD 1 0) (l.getD 2 0) (l.getD 3 0) (l.getD 4 0) (l.getD 5 0) (l.getD 6 0) (l.getD 7 0) (l.getD 8 0) (l.getD 9 0) (l.getD 10 0) (l.getD 11 0) (l.getD 12 0) (l.getD 13 0) (l.getD 14 0) (l.getD 15 0) g
+/-- the 3×3 matrix whose rows are listed in a row-major 9-list -/
+def m3OfRows (l : List K) : M3 K :=
+  ⟨l.getD 0 0, l.getD 1 0, l.getD 2 0, l.getD 3 0, l.getD 4 0, l.getD 5 0, l.getD 6 0, l.getD 7 0, l.getD 8 0⟩
 /-- `a • A + b • B` entry by entry -/
 def lin (a : K) (A : List K) (b : K) (B : List K) : List K := List.zipWith (fun x y => a * x + b * y) A B
 
@@ -84,7 +90,7 @@ def detS (E1 E2 E3 n12 n23 n13 : K) : K :=
 
 /-- unfold the list vocabulary down to field expressions on explicit lists -/
 macro "c21_unfold" : tactic =>
-  `(tactic| simp only [gen_simp, block4, block3, pipe4, sub, transp, ent, sc, condense4, condense3, apply6, quad6, app2, app36,
+  `(tactic| simp only [gen_simp, block4, block3, pipe4, sub, transp, ent, sc, condense4, condense3, apply6, quad6, app2, app36, app16g, m3OfRows, M3.mul_def, M3.mul, M3.mk.injEq,
       lin, isoStiff, M3.mandel3, M3.sym, M3.trace, M3.one_def, M3.one, M3.add_def, M3.add, M3.smul_def, M3.smul,
       List.flatMap_cons, List.flatMap_nil, List.map_cons, List.map_nil, List.cons_append, List.nil_append,
       List.append_nil, List.getD_cons_succ, List.getD_cons_zero, List.getD_nil, List.sum_cons, List.sum_nil,
